@@ -42,6 +42,7 @@ func runE2E(in *bufio.Scanner, w *bufio.Writer) {
 	var curConf *Config
 	valid := uint32(0) // valid frames announced by the generator so far (this connection)
 	var stale *motion.MotionProcessor
+	windowInitially, windowOpenNow := true, true
 	active := false
 	for in.Scan() {
 		line := in.Text()
@@ -70,10 +71,11 @@ func runE2E(in *bufio.Scanner, w *bufio.Writer) {
 			}
 			fmt.Fprintln(w, "< config ok")
 			// injected clock for the recording window
-			open := vKv(f, "window") == "1"
+			windowInitially = vKv(f, "window") == "1"
+			windowOpenNow = windowInitially
 			if !conf.Recorder.Window.NoWindow {
 				conf.Recorder.Window.Now = func() time.Time {
-					if open {
+					if windowOpenNow {
 						return time.Date(2021, 3, 4, 10, 50, 0, 0, time.UTC)
 					}
 					return time.Date(2021, 3, 4, 12, 30, 0, 0, time.UTC)
@@ -94,6 +96,7 @@ func runE2E(in *bufio.Scanner, w *bufio.Writer) {
 			vReportConn(w, done)
 			valid = 0
 			headerInfo = nil
+			windowOpenNow = windowInitially
 			stale = processor // the previous connection's processor stays in the package variable until the new one is built
 			client, done = vStartConn(curConf)
 		case "b": // b <valid frames completed by the end of this segment> <hex>
@@ -130,6 +133,12 @@ func runE2E(in *bufio.Scanner, w *bufio.Writer) {
 			if err := newSnapshotRecording(); err != nil {
 				fmt.Fprintln(w, "< testreq error")
 			}
+		case "win": // the clock passes a boundary of the recording window once everything sent so far has been processed
+			if !active {
+				continue
+			}
+			vWaitQuiescent(func() bool { return processor != nil && processor != stale && processor.CurrentFrame >= valid })
+			windowOpenNow = f[1] == "1"
 		case "end":
 			if !active {
 				continue
@@ -383,6 +392,13 @@ func genE2E(r *vRng, tier string, w *bufio.Writer) {
 		if c.throttle == 1 && c.min+c.preview == 0 {
 			c.min, c.max = 1, c.max+1 // refill rate (min+preview)*fps/min-refill must be > 0
 		}
+		directedCooling := id%6 == 2
+		if directedCooling {
+			// dynamic threshold on a cooling scene, motion from before the recording window opens until after it
+			c.dyn, c.windowSet, c.window, c.throttle, c.diskOk, c.constOn = 1, 1, 0, 0, 1, 0
+			c.power = r.pick(0, 1)
+			c.min, c.max, c.trig = r.pick(1, 2), 3, r.pick(0, 1, 2, 3)
+		}
 		if c.dyn == 1 {
 			switch r.intn(4) {
 			case 1:
@@ -397,7 +413,7 @@ func genE2E(r *vRng, tier string, w *bufio.Writer) {
 		// left out of config.toml and the camera model of each connection selects the defaults
 		c.motionDefaults = 0
 		nconn := 1
-		if r.chance(35) {
+		if r.chance(35) && !directedCooling {
 			nconn = 2
 			if r.chance(60) {
 				c.motionDefaults = 1
@@ -463,8 +479,10 @@ func genE2EConn(r *vRng, c e2eCfg, w *bufio.Writer, last bool) {
 		data  []byte
 		valid int
 		treq  bool
+		win   int // 0: none, 1: window closes here, 2: window opens here
 	}
 	var segs []seg
+	flushW := 0
 	flush := func(valid int, treq bool) {
 		for len(stream) > 0 {
 			n := r.pick(1, 3, 7, 50, fsize, fsize+3, 5000, 100000)
@@ -477,7 +495,9 @@ func genE2EConn(r *vRng, c e2eCfg, w *bufio.Writer, last bool) {
 		if len(segs) > 0 {
 			segs[len(segs)-1].valid = valid
 			segs[len(segs)-1].treq = treq
+			segs[len(segs)-1].win = flushW
 		}
+		flushW = 0
 	}
 	emit := func() {
 		for _, s := range segs {
@@ -488,6 +508,9 @@ func genE2EConn(r *vRng, c e2eCfg, w *bufio.Writer, last bool) {
 			fmt.Fprintf(w, "b %d %s\n", v, hex.EncodeToString(s.data))
 			if s.treq {
 				fmt.Fprintln(w, "t")
+			}
+			if s.win > 0 {
+				fmt.Fprintf(w, "win %d\n", s.win-1)
 			}
 		}
 	}
@@ -525,6 +548,8 @@ func genE2EConn(r *vRng, c e2eCfg, w *bufio.Writer, last bool) {
 		base = 30000
 	}
 	hot := 0
+	winNow := c.window
+	cooling := c.dyn == 1 && c.windowSet == 1 && c.lepton == 0 && c.motionDefaults == 0
 	validCount := 0
 	tonMs := uint32(r.rng(20000, 900000))
 	lastFFC := uint32(0)
@@ -533,6 +558,11 @@ func genE2EConn(r *vRng, c e2eCfg, w *bufio.Writer, last bool) {
 	}
 	for k := 0; k < nItems; k++ {
 		x := r.intn(100)
+		if cooling && winNow == 0 && k == 6+c.trig && validCount > 0 && len(stream) > 0 {
+			winNow = 1
+			flushW = 2
+			flush(validCount, false)
+		}
 		switch {
 		case x < 5:
 			stream = append(stream, "clear"...)
@@ -540,10 +570,24 @@ func genE2EConn(r *vRng, c e2eCfg, w *bufio.Writer, last bool) {
 		case x < 9 && validCount > 0:
 			flush(validCount, true)
 			continue
+		case x < 13 && validCount > 0 && c.windowSet == 1 && len(stream) > 0:
+			// the recording window opens / closes while the camera is streaming
+			winNow = 1 - winNow
+			flushW = 1 + winNow
+			flush(validCount, false)
+			continue
 		}
 		bad := x < 14
 		if r.chance(50) {
 			hot = 1 - hot
+		}
+		if cooling {
+			// a scene that cools frame by frame with something warm in view most of the time: the dynamic threshold
+			// follows the background down while motion continues
+			base -= 12
+			if r.chance(85) {
+				hot = 1
+			}
 		}
 		tonMs += uint32(r.pick(111, 111, 333, 1000))
 		if c.lepton == 1 && r.chance(10) {
@@ -575,12 +619,17 @@ func genE2EConn(r *vRng, c e2eCfg, w *bufio.Writer, last bool) {
 		}
 		if hot == 1 {
 			y, xx := c.h/2, c.w/2
-			put(y*c.w+xx, uint16(base+c.delta+r.pick(1, 30, 400)))
+			amp, flick := r.pick(1, 30, 400), 0
+			if cooling {
+				// flickering: every frame differs from the previous ones, so motion persists frame after frame
+				amp, flick = 1+399*(k%2), 300*(k%2)
+			}
+			put(y*c.w+xx, uint16(base+c.delta+amp))
 			if c.count > 1 {
-				put(y*c.w+xx-1, uint16(base+c.delta+50))
+				put(y*c.w+xx-1, uint16(base+c.delta+50+flick))
 			}
 			if c.count > 2 {
-				put(y*c.w+xx+1, uint16(base+c.delta+60))
+				put(y*c.w+xx+1, uint16(base+c.delta+60+flick))
 			}
 		}
 		if bad {
